@@ -274,6 +274,18 @@ func (fg *FnGen) dispatchCall(fr *Frame, site ssa.Instruction, c *ssa.CallCommon
 	if b, ok := c.Value.(*ssa.Builtin); ok {
 		return fg.builtin(fr, b, c, args, st, reach, pos, name)
 	}
+	if ex, ok := c.Value.(*ssa.Extract); ok && ex.Index == 1 {
+		if mk, ok := ex.Tuple.(*ssa.Call); ok {
+			if sf := mk.Call.StaticCallee(); sf != nil {
+				switch sf.String() {
+				case "context.WithCancel", "context.WithTimeout", "context.WithDeadline", "context.WithCancelCause":
+					// calling a context.CancelFunc only cancels that context: nothing the contracts talk about changes
+					fg.g.useTrusted("context.CancelFunc calls are heap-neutral")
+					return fg.freshResults(fr, name, d.sig), st
+				}
+			}
+		}
+	}
 	if ct := fg.g.contractFor(d); ct != nil && !(fr.top && fg.ct == ct && false) {
 		return fg.applyContract(fr, ct, d, args, argTypes, st, reach, pos, name)
 	}
